@@ -4,8 +4,8 @@ import events_props
 import runner_props
 
 PROP = "C16"
-LEAN_MODULES = ["PamsProps.C16"]
-NAMESPACES = ["Pams.C16"]
+LEAN_MODULES = ["PamsProps.C16", "PamsProps.SimE2E"]
+NAMESPACES = ["Pams.C16", "Pams.C16"]
 DRIVERS = ["Events", "Runner", "Sim"]
 TRUSTED = [
     "arithmetic theorems are over ordered fields; the same Lean definitions are evaluated at Float and compared with Python bit-for-bit (tolerance 1e-12 only where noted)",
